@@ -192,3 +192,4 @@ Definition py_arr_zip (f : Q -> Q -> Q) (a b : list Q) : res (list Q) :=
 Definition py_arr_add2 := py_arr_zip Qplus.
 Definition py_arr_sub2 := py_arr_zip Qminus.
 Definition arr_sq (a : list Q) : list Q := map (fun x => x * x)%Q a.
+Definition py_arr_mul2 := py_arr_zip Qmult.
